@@ -770,6 +770,17 @@ class Gen:
         return ["yield", expr, rng.choice(self.components), time, rng.choice(["final", "t0", "mid_1"]),
                 self.s(expr)]
 
+    def op_reject_idiom(self, sc, persist, phase_names, cur):
+        """'if c1: { if c2: fail_step()/switch/raise;  <p>nrejN <- e }': the update follows the exit of the nested
+        block and is the FIRST mention of its persistent target."""
+        self.nrej = getattr(self, "nrej", 0) + 1
+        name = f"<p>nrej{self.nrej}{self.persist_tag}"
+        c1, c2 = self.bool_expr(sc, 1), self.bool_expr(sc, 1)
+        self.ban_like("<cond>")
+        inner = ["if", c2, [self.op_end(phase_names, cur)], [], None, self.s(c2)]
+        upd = ["assign", name, None, self.num_expr(sc, 1), [], 0]
+        return [["if", c1, [inner, upd], [], None, self.s(c1)]]
+
     def op_end(self, phase_names, cur):
         rng = self.rng
         r = rng.random()
@@ -814,8 +825,9 @@ class Gen:
             elif r < 0.635:
                 q = rng.random()
                 new = (self.op_stencil_pair(sc, persist) if q < 0.3 else
-                       self.op_flag_block(sc, persist) if q < 0.6 else
-                       self.op_extreme_array(sc, persist) if q < 0.72 else self.op_computed_index(sc))
+                       self.op_flag_block(sc, persist) if q < 0.55 else
+                       self.op_reject_idiom(sc, persist, phase_names, cur) if (q < 0.67 and self.allow_end) else
+                       self.op_extreme_array(sc, persist) if q < 0.76 else self.op_computed_index(sc))
             elif r < 0.69:
                 new = [self.op_call_stmt(sc, persist)]
             elif r < 0.79:
